@@ -30,6 +30,24 @@ def lib12Line (l : String) : Option String :=
       | 4 => some ("()", OChk.alwaysCheck o2 (OChk.alwaysStamp o1))
       | _ => none
     pure s!"{l} -> stamp={stamp} {showCons ok} obj={showCons ok} objstamp={stamp} objtyped={showCons ok}"
+  | [fam, c, a, b] => do
+    -- other output types: `Result<(), i64>` (chk2), `Result<bool, ()>` (chk3), `Result<String, ()>` (chk4): the checkers
+    -- are generic; the payloads are normalised to what the type can distinguish; verdicts only
+    let c ← c.toNat?; let a ← a.toInt?; let b ← b.toInt?
+    let norm : Int → Int ← match fam with
+      | "chk2" => some (fun n => if n ≥ 0 then 0 else n)
+      | "chk3" => some (fun n => if n ≥ 0 then n % 2 else -1)
+      | "chk4" => some (fun n => if n ≥ 0 then n else -1)
+      | _ => none
+    let (o1, o2) := (decodeOut (norm a), decodeOut (norm b))
+    let ok ← match c with
+      | 0 => some (OChk.equalsCheck o2 (OChk.equalsStamp o1))
+      | 1 => some (OChk.okEqualsCheck o2 (OChk.okEqualsStamp o1))
+      | 2 => some (OChk.errEqualsCheck o2 (OChk.errEqualsStamp o1))
+      | 3 => some (OChk.resultCheck o2 (OChk.resultStamp o1))
+      | 4 => some (OChk.alwaysCheck o2 (OChk.alwaysStamp o1))
+      | _ => none
+    pure s!"{l} -> {showCons ok} obj={showCons ok} objtyped={showCons ok}"
   | _ => none
 
 def runLines (f : String → Option String) (lines : List String) : List String :=
